@@ -391,12 +391,15 @@ impl PsFunc {
                 PsOp::Roll => {
                     let j = stack.pop().ok_or(PostScriptError::StackUnderflow)? as isize;
                     let n = stack.pop().ok_or(PostScriptError::StackUnderflow)? as usize;
-                    let start = stack.len() - n;
+                    let start = stack.len().checked_sub(n).ok_or(PostScriptError::StackUnderflow)?;
                     let slice = &mut stack[start..];
-                    if j > 0 {
-                        slice.rotate_right(j as usize);
-                    } else {
-                        slice.rotate_left(-j as usize);
+                    if n > 0 {
+                        let k = j.unsigned_abs() % n;
+                        if j > 0 {
+                            slice.rotate_right(k);
+                        } else {
+                            slice.rotate_left(k);
+                        }
                     }
                 }
                 PsOp::Index => {
